@@ -161,6 +161,9 @@ DepCount == Cardinality(UNION {deps[n] : n \in DOMAIN deps})
 Hash == LET RECURSIVE H(_)
             H(j) == IF j > Len(Build) THEN 0 ELSE (j * 7 + 3) * (1 + Cardinality(deps[Build[j]]) + 2 * Cardinality(deps[Build[j]] \cap {"x", "q", "u"})) + H(j + 1)
         IN H(1) + (IF layout = "single" THEN 0 ELSE IF layout = "split" THEN 5 ELSE IF layout = "noparams" THEN 11 ELSE IF layout = "headed" THEN 23 ELSE 17)
+LayoutOffset == IF layout = "single" THEN 0 ELSE IF layout = "split" THEN 5 ELSE IF layout = "noparams" THEN 11 ELSE IF layout = "headed" THEN 23 ELSE 17
+\* the structural part alone: selecting base models on it takes every layout of a selected structure
+HashS == Hash - LayoutOffset
 \* a polynomial hash of the dependency sets themselves (Hash, sums of cardinalities, is too regular to sample with)
 RECURSIVE Pow2(_)
 Pow2(k) == IF k = 0 THEN 1 ELSE 2 * Pow2(k - 1)
